@@ -51,10 +51,43 @@ def _attribute(check: Callable[..., Any], src: str, spec: Dict[str, Any], f: Any
     return None
 
 
+def _tealer_crash(e: BaseException) -> Optional[str]:
+    """'file:line in function' when the exception was raised inside tealer's own code (innermost frame), else None."""
+    import traceback
+
+    tb = traceback.extract_tb(e.__traceback__)
+    if not tb:
+        return None
+    fr = tb[-1]
+    fn = fr.filename.replace("\\", "/")
+    if "/tealer/" in fn and "/verif/" not in fn and "site-packages/crosshair" not in fn:
+        return f"{fn.split('/tealer/', 1)[1]}:{fr.lineno} in {fr.name}"
+    return None
+
+
 def work(item: Tuple[str, str, str, Dict[str, Any], Sequence[Dict[str, Any]]]) -> Dict[str, Any]:
     check_id, name, src, spec, known = item
     check = CHECKS[check_id]
-    findings, st = check(src, spec)
+    try:
+        findings, st = check(src, spec)
+    except Exception as e:  # pylint: disable=broad-except
+        crash = _tealer_crash(e)
+        if crash is None:
+            raise  # an error of the harness itself: reported as such by the pool
+        try:
+            check(src, spec)
+            again = False
+        except Exception as e2:  # pylint: disable=broad-except
+            again = type(e2) is type(e)
+        from vlib.scheck import ProgStats
+
+        st = ProgStats()
+        st.skipped = "tealer raised"
+        j = {"property": None, "engine": "S", "obligation": "crash:tealer", "program": src, "replayed": again, "known_id": None, "program_name": name,
+             "what": f"tealer raised {type(e).__name__}: {e} on a valid program of the family while its results were read ({crash})",
+             "model": None, "path_lines": None, "block_line": None, "claim": "", "tealer_observed": None, "extra": {}}
+        return {"name": name, "findings": [j], "paths": 0, "accepting": 0, "cut": 0, "queries": {"sat": 0, "unsat": 0, "unknown": 0}, "solver_s": 0.0,
+                "tealer_s": 0.0, "skipped": "tealer raised", "nontrivial": False, "extra": {}, "src": src}
     out = []
     for f in findings:
         j = f.to_json()
@@ -121,6 +154,8 @@ def run_family(ctx: Ctx, check_id: str, programs: Sequence[Tuple[str, str, Dict[
             cov["samples"].append({"program": r["src"], "paths": r["paths"], "accepting": r["accepting"], "queries": r["queries"],
                                    "verdict": "no disagreement" if not r["findings"] else f"{len(r['findings'])} disagreement(s): " + str(r["findings"][0]["what"])[:200]})
         for j in r["findings"]:
+            if j.get("property") is None:
+                j["property"] = ctx.prop
             cov["disagreements_checked"] += 1
             if not j["replayed"]:
                 outcome.harness_errors.append(f"{check_id}:{r['name']}: counterexample did not replay: {j['what']}")
